@@ -42,6 +42,8 @@ func renderNode(b *strings.Builder, n SNode, ind string) {
 		switch n.Typ {
 		case "string", "int8", "empty", "boolean":
 			w("  type %s;", n.Typ)
+		case "tstring", "tint8", "tempty": // the same types reached through a typedef of the module
+			w("  type %s;", n.Typ)
 		default:
 			panic("dvm: unknown type " + n.Typ)
 		}
@@ -113,6 +115,7 @@ func renderNode(b *strings.Builder, n SNode, ind string) {
 func RenderYang(sh Shape) string {
 	var b strings.Builder
 	fmt.Fprintf(&b, "module v%d {\n  namespace \"urn:v%d\";\n  prefix v;\n", sh.ID, sh.ID)
+	b.WriteString("  typedef tstring { type string; }\n  typedef tint8 { type int8; }\n  typedef tempty { type empty; }\n")
 	for _, k := range sh.Kids {
 		renderNode(&b, k, "  ")
 	}
@@ -133,6 +136,19 @@ func Compile(sh Shape) (ms schema.ModelSet, err error) {
 		return nil, err
 	}
 	return compile.CompileParseTrees(nil, map[string]*parse.Tree{name: t}, compile.FeaturesFromNames(true), false, nil)
+}
+
+// BaseType: a type reached through a typedef has the value space of its base.
+func BaseType(t string) string {
+	switch t {
+	case "tstring":
+		return "string"
+	case "tint8":
+		return "int8"
+	case "tempty":
+		return "empty"
+	}
+	return t
 }
 
 // DNode is a data node of the spec: name, values (leaf, leaf-list), children.
